@@ -183,3 +183,47 @@ func TestExploreJoin(t *testing.T) {
 	}
 	t.Logf("buggy join: %d of %d schedules fail, e.g. %s", len(bad2), runs2, bad2[0])
 }
+
+func explorePOR(addInside bool, limit int) (runs, cut int, bad []string) {
+	e := &PORExplorer{}
+	for {
+		s := New(nil)
+		s.ChooseT = e.Chooser()
+		var got []int
+		s.Run(func() {
+			a, b := Make[int](s, 0), Make[int](s, 1)
+			out := join(s, []*Chan[int]{a, b}, addInside)
+			s.Go(func() { a.Send(1); a.Close() })
+			s.Go(func() { b.Send(2); b.Close() })
+			for {
+				v, ok := out.Recv()
+				if !ok {
+					break
+				}
+				got = append(got, v)
+			}
+		})
+		if !s.Abandoned {
+			sort.Ints(got)
+			if len(s.Problems) > 0 || s.Deadlock || fmt.Sprint(got) != "[1 2]" {
+				bad = append(bad, fmt.Sprintf("got=%v problems=%v deadlock=%v", got, s.Problems, s.Deadlock))
+			}
+		}
+		if !e.Next() || e.Runs >= limit {
+			return e.Runs, e.Cut, bad
+		}
+	}
+}
+
+func TestExploreJoinPOR(t *testing.T) {
+	runs, cut, bad := explorePOR(false, 500000)
+	if len(bad) > 0 {
+		t.Fatalf("correct join fails under the reducing explorer: %s", bad[0])
+	}
+	t.Logf("correct join with sleep sets: %d runs (%d cut)", runs, cut)
+	runs2, cut2, bad2 := explorePOR(true, 500000)
+	if len(bad2) == 0 {
+		t.Fatalf("the reducing explorer misses the wg.Add bug in %d runs", runs2)
+	}
+	t.Logf("buggy join with sleep sets: %d of %d runs fail (%d cut), e.g. %s", len(bad2), runs2, cut2, bad2[0])
+}
